@@ -84,9 +84,23 @@ package ast
 
 // The text Escape produces for a string (not byte-string) constant is printable ASCII: no raw control character
 // (a raw carriage return or newline would be rewritten when the text is read back), no raw non-ASCII byte.
+// Plain (non-escape) prefixes: a non-ASCII byte starts a UTF-8 sequence that is decoded as a whole.
+//@ func unescapeCharPrefix(s, isBytes)
+//@   mode bv
+//@   opt nosafety
+//@   requires len(s) >= 1
+//@   modifies nothing
+//@   ensures old(s)[0] >= 128 ==> err == nil && value == utf8.runeAt(old(s)) && encode && tail == old(s)[utf8.sizeAt(old(s)):]
+//@             && 1 <= utf8.sizeAt(old(s)) && utf8.sizeAt(old(s)) <= len(old(s))
+
 //@ spec func printable(b []byte, n int) bool = forall k int :: 0 <= k && k < n ==> 32 <= b[k] && b[k] < 127
 //@ func Escape(str, isBytes)
 //@   mode bv
 //@   ensures !isBytes && err == nil ==> (forall k int :: 0 <= k && k < len(result) ==> 32 <= result[k] && result[k] < 127)
+// An error means the input is not valid UTF-8: some non-ASCII byte does not start a valid sequence.
+//@   ensures err != nil ==> !isBytes && len(str) >= 1 && len(str) <= len(old(str)) && str == old(str)[len(old(str)) - len(str):]
+//@             && str[0] >= 128 && utf8.runeAt(str) == 65533 && utf8.sizeAt(str) == 1
+//@   loop 1 invariant len(str) <= len(old(str)) && str == old(str)[len(old(str)) - len(str):]
+//@   loop 2 invariant len(str) <= len(old(str)) && str == old(str)[len(old(str)) - len(str):]
 //@   loop 1 invariant !isBytes ==> printable(buf, len(buf))
 //@   loop 2 invariant !isBytes && printable(buf, len(buf)) && -1 <= j && j <= 2
